@@ -390,6 +390,18 @@ func (w *world) tamper(c kase) (g *types.Transactions, ok bool) {
 		g.Txs = insertAt(g.Txs, c.I, g.Txs[c.J].Clone())
 	case "subst-alone":
 		g.Txs[c.I] = w.alone.Clone()
+	case "subst-foreign-fitted": // a foreign transaction dressed with the replaced member's group fields and freshly signed by its own sender
+		f := w.alone.Clone()
+		o := g.Txs[c.I]
+		f.GroupCount, f.Header, f.Next = o.GroupCount, o.Header, o.Next
+		if c.I > 0 {
+			f.Fee = 0
+		} else {
+			f.Fee = o.Fee
+		}
+		f.Signature = nil
+		f.Sign(keyTy[0], keys[0])
+		g.Txs[c.I] = f
 	case "subst-sibling":
 		g.Txs[c.I] = w.sib.Txs[c.J].Clone()
 	case "subst-bigger":
@@ -600,6 +612,7 @@ func explore(n, vi int) {
 		try(kase{Kind: "drop", I: i})
 		try(kase{Kind: "drop-fixcount", I: i})
 		try(kase{Kind: "subst-alone", I: i})
+		try(kase{Kind: "subst-foreign-fitted", I: i})
 		try(kase{Kind: "subst-other-header", I: i})
 		for j := 0; j < n; j++ {
 			try(kase{Kind: "subst-sibling", I: i, J: j})
@@ -667,7 +680,7 @@ func explore(n, vi int) {
 func main() {
 	clog.SetLogLevel("crit")
 	r = vx.Start("C17", "exploration")
-	r.Rule = "for every group size (quick 2,3,4,20; thorough 2..20) x 4 variants (main chain, one parachain + height expiry, time expiry + >1000-byte member, expiry set by the client SetExpire/RebuiltGroup path): the untouched signed group, every transposition, reversal, rotation, every drop (also with adjusted counts), insertion at every position of (stand-alone tx | every member of a sibling group | every member of a valid group one larger | a duplicate of every member), substitution of every member by the same (and by the equal-hash member of another honest group with a different head), every descriptor-derived field mutation of every member (bytes: first/last bit, truncate, clear, append; every single bit of every integer) (with and without the attacker re-chaining the group), head fee-1, tail fee+1, and honestly re-signed groups with head fee below the requirement / non-zero tail fee (1, the minimum fee, -1, minus the minimum fee). Tampered groups are judged under the configured minimum fee rate and under rate 0. Both the direct route (Transactions.Check/CheckSign) and the packed wire route (Transactions.Tx -> TransactionCache.Check/CheckSign) are evaluated. distinct = distinct (mutation kind[:field] -> rejecting mechanism) classes"
+	r.Rule = "for every group size (quick 2,3,4,20; thorough 2..20) x 4 variants (main chain, one parachain + height expiry, time expiry + >1000-byte member, expiry set by the client SetExpire/RebuiltGroup path): the untouched signed group, every transposition, reversal, rotation, every drop (also with adjusted counts), insertion at every position of (stand-alone tx | every member of a sibling group | every member of a valid group one larger | a duplicate of every member), substitution of every member by a foreign transaction (as it is, and dressed with the replaced member's group count, header, next-hash and fee and freshly signed by its own sender), by the same (and by the equal-hash member of another honest group with a different head), every descriptor-derived field mutation of every member (bytes: first/last bit, truncate, clear, append; every single bit of every integer) (with and without the attacker re-chaining the group), head fee-1, tail fee+1, and honestly re-signed groups with head fee below the requirement / non-zero tail fee (1, the minimum fee, -1, minus the minimum fee). Tampered groups are judged under the configured minimum fee rate and under rate 0. Both the direct route (Transactions.Check/CheckSign) and the packed wire route (Transactions.Tx -> TransactionCache.Check/CheckSign) are evaluated. distinct = distinct (mutation kind[:field] -> rejecting mechanism) classes"
 	r.Assume = []string{
 		"a member re-signed with a different key but identical content is not counted as a substituted member: hashes ignore the signature by design (C16), observed and counted as observed_resigned_member_accepted",
 		"expiry of groups (IsExpire) is not part of Check/CheckSign and is not asserted here",
